@@ -191,8 +191,51 @@ class Explicit(object):
         return min(real) if real else CLOCK
 
 
+class Sites(object):
+    """Non-preemptive default except at *site* rules: when thread `tid` is
+    about to run the yield point `where` for the occ-th time, hand over to
+    `to`.  Unlike step numbers, sites stay meaningful after an earlier
+    switch has shifted everything, so rules compose: this is what a
+    race-directed sweep over several pre-emption points needs.
+    rules: [[tid, where, occ, to], ...]; where = [file, line] or a name;
+    `points` (step, thread) as in Preempt, for the initial order."""
+    kind = 'sites'
+
+    def __init__(self, rules, points):
+        self.rules = {}
+        for tid, where, occ, to in rules:
+            key = (int(tid), tuple(where) if isinstance(where, (list, tuple))
+                   else where, int(occ))
+            self.rules[key] = int(to)
+        self.points = {int(s): int(t) for s, t in points or []}
+        self.count = {}
+        self.want = None
+        self.fired = 0
+
+    def note(self, tid, where):
+        k = (tid, where)
+        n = self.count.get(k, 0) + 1
+        self.count[k] = n
+        self.want = self.rules.get((tid, where, n))
+
+    def choose(self, cands, cur, step):
+        want, self.want = self.want, None
+        if want is None:
+            want = self.points.get(step)
+        elif want in cands:
+            self.fired += 1
+        if want is not None and want in cands:
+            return want
+        if cur is not None and cur in cands:
+            return cur
+        real = [c for c in cands if c != CLOCK]
+        return min(real) if real else CLOCK
+
+
 def make_chooser(spec, nthreads):
     k = spec.get('kind', 'preempt')
+    if k == 'sites':
+        return Sites(spec.get('rules') or [], spec.get('points'))
     if k == 'random':
         return RandomWalk(spec.get('seed', 0), spec.get('stay', 0.8))
     if k == 'pct':
@@ -228,6 +271,10 @@ class Scheduler(object):
         self.stall = None
         self.stalled_on = None     # index of the socket whose write stalled
         self.freezes = {}           # step -> (tid, microseconds)
+        self._note = getattr(chooser, 'note', None)
+        self.visits = None          # recording runs: [(tid, where)] in order
+        self.last_visit = {}
+        self.accesses = None        # recording runs: [(visit index, tid, attr, r/w)]
 
     # -- objects handed to lomond
     def make_lock(self, reentrant=False):
@@ -416,6 +463,11 @@ class Scheduler(object):
             me.state = 'runnable'
             me.deadline = None
             return
+        if self._note is not None:
+            self._note(me.tid, where)
+        if self.visits is not None:
+            self.last_visit[me.tid] = len(self.visits)
+            self.visits.append((me.tid, where))
         nxt = self._pick(me)
         if nxt is None or nxt is me:
             return
@@ -522,6 +574,42 @@ class Scheduler(object):
 
 # ---------------------------------------------------------------------------
 
+def _record_accesses(ws, sched):
+    """Recording runs of the race-directed sweep: every read and write of an
+    attribute of the connection state (WebSocket.State) during the concurrent
+    phase is logged with the thread and the yield point it happened at.  The
+    State class of this one object is replaced by a logging subclass; the
+    library code is not touched."""
+    sched.visits = []
+    sched.accesses = []
+    base = type(ws).State
+
+    def _log(name, kind):
+        me = sched.current
+        if sched.active and me is not None and not name.startswith('__'):
+            sched.accesses.append((sched.last_visit.get(me.tid, -1), me.tid,
+                                   name, kind))
+
+    class RecState(base):
+        def __getattribute__(self, name):
+            _log(name, 'r')
+            return base.__getattribute__(self, name)
+
+        def __setattr__(self, name, value):
+            _log(name, 'w')
+            base.__setattr__(self, name, value)
+
+    RecState.__name__ = base.__name__
+    RecState.__qualname__ = base.__qualname__
+    ws.State = RecState
+    st = ws.__dict__.get('state')
+    if st is not None and type(st) is base:
+        try:
+            st.__class__ = RecState
+        except TypeError:
+            pass
+
+
 class TCall(object):
     __slots__ = ('tid', 'k', 'op', 'outcome', 'exc', 'exc_is_wse', 'step0',
                  'step1', 'wire_before')
@@ -556,6 +644,8 @@ def run(scen):
     trace.world = w
     ws = netsim._make_ws(scen)
     trace.ws = ws
+    if scen.get('record_access'):
+        _record_accesses(ws, sched)
     app = netsim.App(scen.get('app'), trace, w)
     app.ws = ws
     ckw = dict(scen.get('connect') or {})
